@@ -37,6 +37,23 @@ fn main() {
             run::worker(find(&arg(&args, "--prop").expect("--prop")), &a)
         }
         "replay" => run::replay(&props, &PathBuf::from(arg(&args, "--file").expect("--file"))),
+        "fuzz-artifact" => {
+            // convert a libFuzzer input ([2 bytes shape selector][tape]) into a replay file
+            let id = arg(&args, "--prop").expect("--prop");
+            let prop = find(&id);
+            let data = std::fs::read(arg(&args, "--file").expect("--file")).expect("harness: read artifact");
+            let reg = run::Registry::load();
+            let shapes: Vec<usize> = (0..reg.shapes.len()).filter(|i| prop.applicable_shape(reg.shapes[*i].as_ref())).collect();
+            if data.len() < 2 || shapes.is_empty() {
+                eprintln!("artifact too short");
+                std::process::exit(3);
+            }
+            let sel = u16::from_le_bytes([data[0], data[1]]) as usize;
+            let shape = shapes[(sel * shapes.len()) >> 16];
+            let path = run::write_replay(prop.id(), &reg, Some(shape), &data[2..], "found by the libFuzzer target", "case");
+            println!("{}", path.display());
+            0
+        }
         "shapes" => {
             let reg = run::Registry::load();
             for s in &reg.shapes {
